@@ -20,13 +20,14 @@ ExpOf(i) == NthR(i, 1)
 TwoTo(n) == GF16!Tab.exp[(n % 65535) + 1]
 Const(i) == TwoTo(ExpOf(i))
 
-\* << Const(0), ..., Const(count-1) >> built in one pass
-RECURSIVE ConstSeqR(_, _, _)
-ConstSeqR(count, n, acc) ==
-  IF Len(acc) = count THEN acc
-  ELSE IF ValidExp(n) THEN ConstSeqR(count, n + 1, Append(acc, TwoTo(n)))
-       ELSE ConstSeqR(count, n + 1, acc)
-ConstSeq(count) == ConstSeqR(count, 1, << >>)
+\* the valid exponents below 65536 in ascending order (there are 32768 of them), and the table of
+\* all constants << Const(0), ..., Const(32767) >>; kept in a TLC register by the root module:
+\*   ASSUME PC!InitConstTab(0)        ...        PC!ConstT(i) = Const(i)
+ValidExps(u) == SelectSeq([n \in 1 .. 65535 |-> n], ValidExp)
+BuildConstTab(u) == LET ve == ValidExps(u) IN [i \in 1 .. Len(ve) |-> TwoTo(ve[i])]
+InitConstTab(u) == TLCSet(11, TLCEval(BuildConstTab(u)))
+ConstT(i) == TLCGet(11)[i + 1]
+EntryT(e, i) == GF16!FastPow(ConstT(i), e)
 
 \* the Vandermonde entry of recovery block e and slice i: Const(i)^e
 Entry(e, i) == GF16!FastPow(Const(i), e)
